@@ -1,4 +1,4 @@
-CONSTANTS MaxGen = 3 DropStyledBlank = FALSE
+CONSTANTS MaxGen = 3 DropStyledBlank = FALSE RowSkip = "never"
 SPECIFICATION TraceSpec
 POSTCONDITION Consumed
 CHECK_DEADLOCK FALSE
